@@ -181,14 +181,16 @@ def generate():
                              ("block.py", "Block", "block")]:
         for meth, kind, fmt, label in _calls(root / rel, cls):
             nm = "%s_%s_%s" % (prefix, meth.strip("_"), kind)
-            if label.startswith("len("):
-                nm += "_count"
-            elif fmt == "I":
+            # names depend on where the call is, never on the format it passes (a changed format must reach the model)
+            if prefix == "block" and meth in ("parse", "_stream_transactions"):
                 nm += "_count"
             if nm in seen:
-                if seen[nm] != fmt:
-                    raise SystemExit("gen_messages: two formats for " + nm)
-                continue
+                if seen[nm] == fmt:
+                    continue
+                k = 2
+                while "%s_%d" % (nm, k) in seen:
+                    k += 1
+                nm = "%s_%d" % (nm, k)
             seen[nm] = fmt
             out.append("/-- `%s_struct(\"%s\", …)` in %s:%s.%s -/" % (kind, fmt, rel, cls, meth))
             out.append("def %s : List Char := %s" % (nm, _lean_str(fmt)))
